@@ -24,6 +24,9 @@ func TestSweep(t *testing.T) {
 						spare := C * (K - b)
 						for n := 0; n <= spare+C+1; n++ {
 							Oracle.One(t, env, rec, "sweep", &Case{T: tn, C: C, Kr: K, A: a, B: b, N: n, Fix: (n + b) % 3, Vals: []int64{9, 0, 127}})
+							if n == spare || n == 1 {
+								Oracle.One(t, env, rec, "sweep", &Case{T: tn, C: C, Kr: K, A: a, B: b, N: n, Over: 1 + n%2, Vals: []int64{9, 0, 127}})
+							}
 						}
 						Oracle.One(t, env, rec, "sweep", &Case{T: tn, C: C, Kr: K, A: a, B: b, N: 3*C*(K-a) + 5, Vals: []int64{9, 0, 127}})
 					}
